@@ -436,6 +436,11 @@ def st_unknown(draw):
                                 ("malformed_segment", "S\tA\t10"), ("malformed_segment", "S\ta b\t*"),
                                 ("malformed_edge", "E\t*\tA+\tB-\t5\t3\t0\t1\t*\txx:i:q"),
                                 ("malformed_gap", "G\t*\tA+\tB-\tx\t*")])
+    if gen.chance(r, 0.15):
+        # a line that can only be judged once the version is known waits in the queue and is
+        # refused then: the call that fixes the version fails (known finding D86, DESIGN 5.3)
+        pre = [x for x in pre if not x.startswith("H")] + [gen.choice(r, ["L\tA\t+\tB", "L\tA\t+\tB\t+\t5Q", "C\tA\t+\tB\t+\tx\t*"])]
+        what, fail = "deciding_line_with_refused_queued_line", gen.choice(r, ["S\tzz\t*", "H\tVN:Z:1.0", "S\tzz\t7\t*", "E\t*\tzz+\tzy+\t0\t1\t0\t1\t*"])
     if what == "header_conflict" and "H\tTS:i:5" not in pre:
         pre.append("H\tTS:i:5")
     then_ok = not (what.startswith("malformed_e") or what.startswith("malformed_g")) or v == "gfa2"
